@@ -11,7 +11,12 @@ import (
 
 // EnableLua installs the mini-Lua interpreter as the script engine. The
 // script text that the client really sent is what gets executed.
-func (s *Server) EnableLua() {
+func (s *Server) EnableLua() { s.EnableLuaMaxSteps(1000000) }
+
+// EnableLuaMaxSteps is EnableLua with a caller chosen bound on executed statements / loop iterations per script run
+// (a script that exceeds it is aborted with an error reply, standing in for Redis' busy-script handling of a
+// script that never terminates). Harnesses that enumerate many histories use a small bound to keep runaway scripts cheap.
+func (s *Server) EnableLuaMaxSteps(maxSteps int) {
 	cache := map[string]*minilua.Chunk{}
 	s.RunScript = func(c *Ctx, body string, keys, args []string, ro bool) Reply {
 		ch, ok := cache[body]
@@ -24,7 +29,7 @@ func (s *Server) EnableLua() {
 			cache[body] = ch
 		}
 		env := minilua.NewEnv()
-		env.MaxSteps = 1000000
+		env.MaxSteps = maxSteps
 		kt, at := minilua.NewTable(), minilua.NewTable()
 		for _, k := range keys {
 			kt.Append(k)
